@@ -268,8 +268,12 @@ def escaped_case(g):
     r = g.r
     inner = r.choice([["a"], ["b", 0], "x", 5])
     key = r.choice(["path", "path.length", "path.first.map_keys"])
-    spec = {"value.equal_to": {"\\" + key: inner}}
-    want = {key: inner}
+    # the escaped key alone, or among other keys in any position
+    others = {k: r.choice([1, "x", None]) for k in r.sample(["note", "z", "a"], r.choice([0, 0, 1, 2]))}
+    items = list(others.items())
+    items.insert(r.randrange(len(items) + 1), ("\\" + key, inner))
+    spec = {"value.equal_to": dict(items)}
+    want = {(k[1:] if k.startswith("\\") else k): v for k, v in items}
     c = Case("escaped", {"spec": enc.enc_val(spec)})
     c.py = f"from valida.conditions import *\nc = ConditionLike.from_spec({spec!r})\nprint(c, c.filter([{want!r}, 1]).result)"
     o = enc.outcome(lambda: ConditionLike.from_spec(copy.deepcopy(spec)))
